@@ -56,7 +56,7 @@ def programs():
     # pub-style record: padded strings, fixed arrays, length-prefixed name
     add("pub-record", [length("name_len", "char"), field("name", "string", length="name_len"), field("gfx", "short"), field("kind", "E1"),
                         field("tag", "string", length="4", padded="true"), array("stats", "short", length="3")], "struct:pub")
-    add("pub-file", [field(None, "string", "EIF", length="3"), array("rid", "short", length="2"), length("count", "short"), field("ver", "char"),
+    add("pub-file", [field(None, "string", "EIF", length="3"), array("rid", "short", length="2"), length("count", "char"), field("ver", "char"),
                       array("records", "Rec", length="count")], "struct:pub", [rec])
     # map-style fixed arrays of structs and raw bytes
     add("map-rows", [field("w", "char"), array("corners", "Coords", length="4"), array("rest", "Coords")], "struct:map", [coords])
@@ -65,6 +65,7 @@ def programs():
     add("opt-chain", [field("a", "char"), field("b", "short", optional="true"), field("c", "E1", optional="true"), field("d", "string", optional="true")])
     add("case-own-scope", [field("k", "E1"), field("x", "char"), switch("k", [case("A", [field("x", "short"), field("y", "char")]), case("B", [field("x", "string")])])])
     add("bool-override", [field("flag", "bool"), field("wide", "bool:three"), field("e", "E2:int"), array("flags", "bool", length="2")])
+    add("short-count", [length("n", "short"), array("xs", "char", length="n")])
     add("len-offset-array", [length("n", "char", offset="1"), array("xs", "short", length="n"), field("after", "char")])
     add("encoded", [chunked([field("a", "encoded_string"), brk(), field("b", "encoded_string", length="4", padded="true"), field("c", "encoded_string")])])
     add("enum-array-switch", [array("es", "E1", length="2"), field("k", "E2"), switch("k", [case("Big", [array("more", "E3")]), case("7", [field("z", "byte")])])])
